@@ -71,7 +71,7 @@ type stats struct {
 	ambiguous, latestChecked, metaDeleted, readd, elementEnc, keyed                                  bool
 	sawConnErr                                                                                       map[string]bool
 	maxBulk, maxDeleted                                                                              int
-	nearValue, directEntry, mixedEnc, extremeTS, pathOrigin                                          bool
+	nearValue, directEntry, mixedEnc, extremeTS, pathOrigin, readdLive                               bool
 	bigDeleteWithSurvivor                                                                            bool
 }
 
@@ -108,6 +108,7 @@ func (s *stats) labels() []string {
 	add(s.directEntry, "operation-through-the-per-target-entry-point")
 	add(s.mixedEnc, "prefix-and-paths-in-different-or-both-encodings")
 	add(s.extremeTS, "timestamp-from-the-edges-of-the-int64-range")
+	add(s.readdLive, "add-of-a-name-that-is-already-registered")
 	add(s.pathOrigin, "origin-carried-by-an-update-or-delete-path")
 	add(s.maxBulk > 32, "bulk-update>32")
 	add(s.maxBulk > 64, "bulk-update>64")
@@ -1410,7 +1411,22 @@ func (w *world) run() (err error) {
 			w.applyFeed(feedFrom)
 		case "add":
 			if live {
-				break // re-adding a live target silently replaces it: outside the property
+				// Re-adding a live target silently replaces it (its leaves vanish without any announcement):
+				// outside C02/C03/C14. For C15 alone it is one more way a target starts afresh: every
+				// counter and the leaf count describe the new, empty tree.
+				if !w.check["C15"] || len(w.check) != 1 {
+					break
+				}
+				w.c.Add(name)
+				w.model[name] = newMTarget()
+				delete(w.st.sawConnErr, name)
+				for k := range w.replay {
+					if gn.Unkey(k)[0] == name {
+						delete(w.replay, k)
+					}
+				}
+				w.st.readdLive = true
+				break
 			}
 			others := w.snapshotOthers(name)
 			w.c.Add(name)
